@@ -339,6 +339,10 @@ func (r *Scanner) inflateContent(contentOffset int64, writer io.Writer, declared
 	defer gogitsync.PutZlibReader(zr)
 
 	_, err = ioutil.CopyBufferPool(bounded, zr)
+	if err == nil && bounded.n != declaredSize {
+		// fewer inflated bytes than the entry header declares
+		err = ErrInflatedSizeMismatch
+	}
 	return err
 }
 
@@ -537,11 +541,18 @@ func objectEntry(r *Scanner) (stateFn, error) {
 	// value, so any overrun signals a malformed entry. For delta entries
 	// the declared size is the size of the delta instruction stream, not
 	// the resolved object.
-	mw = &boundedWriter{w: mw, limit: oh.Size}
+	bw := &boundedWriter{w: mw, limit: oh.Size}
 
-	_, err = ioutil.CopyBufferPool(mw, zr)
+	_, err = ioutil.CopyBufferPool(bw, zr)
 	if err != nil {
 		return nil, err
+	}
+
+	// The bound works in both directions: an entry that inflates to fewer
+	// bytes than its header declares would be hashed (and indexed) under a
+	// size its content does not have.
+	if bw.n != oh.Size {
+		return nil, ErrInflatedSizeMismatch
 	}
 
 	if err := r.Flush(); err != nil {
